@@ -59,6 +59,10 @@ class C04(Prop):
         for _ in range(160 if tier == "quick" else 2500):
             layout = F.gen_fasta(rng, exotic=True)
             yield from self.cases_for(rng, layout, "wf")
+        # a FASTA written by pretext-to-asm, indexed afterwards by another tool (.fai only, newer than the
+        # FASTA), then loaded: whatever files the run left beside it, the loaded assembly must describe the file
+        for multi in (True, False):
+            yield {"gen": "cli-output-reloaded", "kind": "cli_reload", "multi": multi, "layout": None, "data": "", "buf": 250000}
         # record names outside ASCII (UTF-8 in the file): the index, the derived assembly and the cache
         # files must carry the names as the file spells them (oracle only: the model is ASCII)
         for k in range(12 if tier == "quick" else 100):
@@ -87,7 +91,46 @@ class C04(Prop):
             out.append([min(a, b), max(a, b)])
         return out
 
+    def run_cli_reload(self, case):
+        import os
+        import shutil
+
+        from tola.fasta.index import FastaIndex, index_fasta_file
+
+        from .. import cli_util as C
+        from .. import core
+
+        root = core.BUILD / self.pid / "cli"
+        shutil.rmtree(root, ignore_errors=True)
+        fa, agp = C.write_inputs(root / "in", case["multi"])
+        out = root / "out"
+        out.mkdir(parents=True)
+        r = C.run_cli(["-a", fa, "-p", agp, "-o", out / "x.fa", "--no-write-log"])
+        res = {"exit": r.exit_code, "files": []}
+        for q in sorted(out.iterdir()):
+            if q.suffix != ".fa":
+                continue
+            idx, asm = index_fasta_file(q, 250000)
+            fresh = [[s_.name, [A.obj_to_row(x) for x in s_.rows]] for s_ in asm.scaffolds]
+            # another tool's faidx: the .fai only
+            with open(str(q) + ".fai", "w") as fh:
+                for n_, i_ in idx.items():
+                    fh.write(f"{n_}\t{i_.length}\t{i_.file_offset}\t{i_.residues_per_line}\t{i_.max_line_length}\n")
+            old = q.stat().st_mtime - 60
+            os.utime(q, (old, old))
+            try:
+                fi = FastaIndex(q)
+                fi.auto_load()
+                got = [[s_.name, [A.obj_to_row(x) for x in s_.rows]] for s_ in fi.assembly.scaffolds]
+            except Exception as e:
+                got = {"err": type(e).__name__}
+            res["files"].append({"name": q.name, "fresh": fresh, "loaded": got})
+        shutil.rmtree(root, ignore_errors=True)
+        return res
+
     def run_impl(self, case):
+        if case["kind"] == "cli_reload":
+            return self.run_cli_reload(case)
         ctx = F.Ctx(self.pid, case["data"])
         ix = ctx.index(case["buf"])
         if case["kind"] == "index":
@@ -114,7 +157,7 @@ class C04(Prop):
         return {"index": ix, "stream": F.stream_impl(fi, ix["asm"], 60)}
 
     def term(self, case, obs):
-        if case.get("utf8"):
+        if case.get("utf8") or case["kind"] == "cli_reload":
             return []
         if case["kind"] == "index":
             def t(names):
@@ -142,6 +185,16 @@ class C04(Prop):
 
     # ---- oracle
     def oracle(self, case, obs):
+        if case["kind"] == "cli_reload":
+            if obs["exit"] != 0 or not obs["files"]:
+                return f"pretext-to-asm FASTA -> FASTA failed: exit {obs['exit']}"
+            for f in obs["files"]:
+                if isinstance(f["loaded"], dict):
+                    continue            # failing loudly is allowed
+                if f["loaded"] != f["fresh"]:
+                    return (f"{f['name']} written by pretext-to-asm, then indexed by another tool and loaded: the loaded "
+                            f"assembly {f['loaded']} does not describe the file ({f['fresh']})")
+            return None
         layout = case["layout"]
         if layout is None:
             data = case["data"]
@@ -183,6 +236,8 @@ class C04(Prop):
         return None
 
     def classify(self, case, obs):
+        if case["kind"] == "cli_reload":
+            return case["gen"]
         ix = obs if case["kind"] == "index" else obs.get("index", {})
         return case["gen"] + ("/Err" if "err" in ix else "/Ok")
 
